@@ -56,6 +56,7 @@ PROPS = {
     },
     "C07": {
         "engines": ["seq", "seq0", "seqp"],
+        "purity_probe": True,
         "footprint": {"upd": "*", "state": ["vis", "hid", "cnt", "list"], "add": "*", "match": "*", "read": "*"},
         "nontrivial": r"^upd ok=[A-Z]",
         "rule": "E-seq/E-seq0 histories with all five update kinds x present/absent ids x equal/different price and read-only calls "
